@@ -16,6 +16,7 @@ type writeSet struct {
 	keys   map[string]bool
 	all    bool
 	allocs bool
+	logs   bool // the ghost call log may grow
 }
 
 func (w *writeSet) add(k string) {
@@ -239,6 +240,9 @@ func (vc *VC) callWrites(x *ssa.Call, wk *writeSet, depth int, visiting map[*ssa
 			if ct.NoReturn {
 				return
 			}
+			if ct.Logged {
+				wk.logs = true
+			}
 			if !ct.HasMod {
 				wk.all = true
 				return
@@ -256,6 +260,7 @@ func (vc *VC) callWrites(x *ssa.Call, wk *writeSet, depth int, visiting map[*ssa
 		}
 	}
 	wk.all = true
+	wk.logs = true
 }
 
 // contractWrites adds the keys named by a contract's modifies clause (type level).
@@ -512,17 +517,21 @@ func (vc *VC) evalModifies(ct *Contract, sc *Scope, post *State) (*modSet, error
 				return nil, err
 			}
 			a, ok := v.sym.(adv)
-			if !ok || len(a.idx) != 1 {
+			if !ok || len(a.idx) > 2 {
 				return nil, fmt.Errorf("modifies *%s: not a cell pointer", mi.E)
 			}
 			var ks []string
 			vc.keysOfType(a.base, a.typ, &ks)
 			vc.touchKeysForType(sc.cur, a.base, a.typ, len(a.idx))
 			for _, k := range ks {
-				if len(a.idx) == 0 {
+				switch len(a.idx) {
+				case 0:
 					ms.keyAll[k] = true
-				} else {
+				case 1:
 					ms.refs[k] = append(ms.refs[k], a.idx[0])
+				case 2:
+					// element of a slice: the whole backing array row is considered modified (over-approximation)
+					ms.arrs[k] = append(ms.arrs[k], a.idx[0])
 				}
 			}
 		case "field", "fields":
@@ -769,6 +778,9 @@ func (f *frame) frameCheckCall(cur *State, callee string, cms *modSet, pos token
 		return
 	}
 	for k := range cms.keyAll {
+		if strings.HasPrefix(k, "L:") {
+			continue // locals of the verified function are never part of its frame
+		}
 		if !ms.keyAll[k] {
 			vc.oblige(cur, "FRAME", "call["+callee+"]", "false", f.where(pos), "callee modifies every "+k)
 		}
@@ -871,7 +883,7 @@ func (f *frame) opaqueCall(x *ssa.Call, what string, cur *State) {
 	if !f.specMode {
 		f.frameCheckCall(cur, what, &modSet{all: true}, x.Pos())
 	}
-	vc.havocKeys(cur, &writeSet{all: true})
+	vc.havocKeys(cur, &writeSet{all: true, logs: true})
 	cur.nonnil = map[Term]bool{}
 	f.setResult(x, cur)
 	f.raisePoint(cur, nil, nil, what, x.Pos())
@@ -1142,6 +1154,12 @@ func (f *frame) applyContract(ct *Contract, calleeName string, params []paramInf
 			rtv = append(rtv, tv{r.e[i], results.At(i).Type()})
 		}
 	}
+	if ct.Logged {
+		f.logCall(cur, ct, params, args, rtv)
+	} else if ms.all {
+		// an unlogged callee that may do anything may also run logged functions
+		vc.havocLog(cur)
+	}
 	post := vc.newScope(cur, pre)
 	post.vars = sc.vars
 	post.results = rtv
@@ -1155,6 +1173,37 @@ func (f *frame) applyContract(ct *Contract, calleeName string, params []paramInf
 		vc.assume(cur, t)
 	}
 	return res
+}
+
+// logCall appends (callee, scalar arguments, scalar results) to the ghost call log.
+func (f *frame) logCall(cur *State, ct *Contract, params []paramInfo, args []Sym, res []tv) {
+	vc := f.vc
+	n := vc.heapGet(cur, "Z:n", "Int")
+	id := vc.eng.contractID(ct)
+	vc.storeScalar(cur, "Z:fn", []Term{n}, "Int", id)
+	for i, a := range args {
+		s, ok := a.(sv)
+		if !ok || i >= len(params) {
+			continue
+		}
+		sort := vc.eng.sortOf(params[i].typ)
+		if sort == "" {
+			continue
+		}
+		vc.storeScalar(cur, fmt.Sprintf("Z:a%d:%s", i, sort), []Term{n}, sort, s.t)
+	}
+	for i, r := range res {
+		s, ok := r.sym.(sv)
+		if !ok {
+			continue
+		}
+		sort := vc.eng.sortOf(r.typ)
+		if sort == "" {
+			continue
+		}
+		vc.storeScalar(cur, fmt.Sprintf("Z:r%d:%s", i, sort), []Term{n}, sort, s.t)
+	}
+	cur.heap["Z:n"] = vc.define("logn", "Int", fmt.Sprintf("(+ %s 1)", n))
 }
 
 func resultNames(t *types.Tuple) []string {
